@@ -33,8 +33,10 @@ namespace Rio.Router
 structure PathState where
   /-- `regex_tree_rule`, specification level: `(pattern, id) ↦ route`. -/
   tree : List ((Pat × String) × Route)
-  /-- `static_rules : HashMap<String, HashMap<String, Arc<Route>>>`. -/
-  statics : List (String × List (String × Route))
+  /-- `static_rules : HashMap<String, HashMap<String, Arc<Route>>>` as one association list
+  `(path, id) ↦ route` (an inner map exists iff some entry has that path; the code prunes empty
+  inner maps, so this loses nothing). -/
+  statics : List ((String × String) × Route)
   count : Nat
 deriving Inhabited
 
@@ -44,49 +46,35 @@ def Path.empty : PathState := ⟨[], [], 0⟩
 def Path.insert (r : Route) (s : PathState) : PathState :=
   match r.path with
   | .static p =>
-    { s with count := s.count + 1,
-             statics := aupsert (fun m => aupsert (fun _ => r) r r.id m) [] p s.statics }
+    { s with count := s.count + 1, statics := aupsert (fun _ => r) r (p, r.id) s.statics }
   | .dyn p =>
     { s with count := s.count + 1, tree := aupsert (fun _ => r) r (p, r.id) s.tree }
 
-/-- `RegexTreeMap::remove(id)`: the first entry stored under `id`. -/
-def treeRemove (id : String) : List ((Pat × String) × Route) → List ((Pat × String) × Route) × Option Route
+/-- `RegexTreeMap::remove(id)` (the first entry stored under `id`), and the
+`static_rules.retain(..)` closure of `PathAndQueryMatcher::remove` (removes from the first inner
+map containing `id`, then keeps everything else untouched). -/
+def entryRemove {P : Type} (id : String) :
+    List ((P × String) × Route) → List ((P × String) × Route) × Option Route
   | [] => ([], none)
   | e :: rest =>
     if e.1.2 = id then (rest, some e.2)
     else
-      let res := treeRemove id rest
+      let res := entryRemove id rest
       (e :: res.1, res.2)
-
-/-- The `static_rules.retain(..)` closure of `PathAndQueryMatcher::remove` (stops removing after the
-first hit; drops an inner map that became empty). -/
-def staticsRemove (id : String) :
-    List (String × List (String × Route)) → List (String × List (String × Route)) × Option Route
-  | [] => ([], none)
-  | (p, m) :: rest =>
-    match alookup id m with
-    | some r =>
-      let m' := m.filter (fun e => e.1 != id)
-      (if m'.isEmpty then rest else (p, m') :: rest, some r)
-    | none =>
-      let res := staticsRemove id rest
-      (if m.isEmpty then res.1 else (p, m) :: res.1, res.2)
 
 /-- `PathAndQueryMatcher::remove`. -/
 def Path.remove (id : String) (s : PathState) : PathState × Option Route :=
-  let t := treeRemove id s.tree
+  let t := entryRemove id s.tree
   match t.2 with
   | some r => ({ s with tree := t.1, count := s.count - 1 }, some r)
   | none =>
-    let st := staticsRemove id s.statics
+    let st := entryRemove id s.statics
     ({ s with statics := st.1, count := if st.2.isSome then s.count - 1 else s.count }, st.2)
 
 /-- `PathAndQueryMatcher::batch_remove` (`count` is left untouched, as in the code). -/
 def Path.batchRemove (ids : List String) (s : PathState) : PathState :=
   { s with
-    statics := s.statics.filterMap (fun e =>
-      let m' := e.2.filter (fun x => !ids.contains x.1)
-      if m'.isEmpty then none else some (e.1, m')),
+    statics := s.statics.filter (fun e => !ids.contains e.1.2),
     tree := s.tree.filter (fun e => !ids.contains e.1.2) }
 
 section
@@ -94,10 +82,8 @@ variable (E : Env)
 
 /-- `PathAndQueryMatcher::match_request`. -/
 def Path.matchReq (s : PathState) (q : Req) : List Route :=
-  let routes := (s.tree.filter (fun e => E.pathFind e.1.1 q.path)).map Prod.snd
-  match alookup q.path s.statics with
-  | none => routes
-  | some m => routes ++ m.map Prod.snd
+  (s.tree.filter (fun e => E.pathFind e.1.1 q.path)).map Prod.snd ++
+    (s.statics.filter (fun e => e.1.1 == q.path)).map Prod.snd
 
 /-- `PathAndQueryMatcher::trace` with the tree trace at specification level: one `Regex` node per
 tree entry below a synthetic root; a `Storage` node lists the entry's route iff the pattern matched. -/
@@ -107,10 +93,9 @@ def Path.trace (s : PathState) (q : Req) : List Trace :=
     Trace.mk m true 1 (.other "regex") [Trace.mk m true 1 (.storage (if m then [e.2] else [])) []])
   let root := Trace.mk true true s.tree.length (.other "regex") leaves
   let treeT := Trace.mk true true s.tree.length (.other "path_and_query_regex") [root]
+  let found := (s.statics.filter (fun e => e.1.1 == q.path)).map Prod.snd
   let staticT : List Trace :=
-    match alookup q.path s.statics with
-    | none => []
-    | some m => [Trace.mk true true m.length (.storage (m.map Prod.snd)) []]
+    if found.isEmpty then [] else [Trace.mk true true found.length (.storage found) []]
   [treeT, Trace.mk (!staticT.isEmpty) true s.statics.length (.other "path_and_query_static") staticT]
 
 def pathOps : MOps where
@@ -182,6 +167,19 @@ def lMatchMap (accepts : K → Req → Bool) (m : List (K × I.M)) (q : Req) : L
 
 end
 
+/-- An outer matcher: the shared `insert` / `remove` / `batch_remove` / `len`, with the layer's own
+bucket selection, `match_request` and `trace`. -/
+def outerOps {K : Type} [DecidableEq K] (I : MOps) (keysOf : Route → Option (List K))
+    (matchReq : LState I K → Req → List Route) (trace : LState I K → Req → List Trace) : MOps where
+  M := LState I K
+  empty := lEmpty I
+  insert := lInsert I keysOf
+  remove := lRemove I
+  batchRemove := lBatchRemove I
+  matchReq := matchReq
+  trace := trace
+  len := fun s => s.count
+
 /-! ## DateTimeMatcher and HeaderMatcher: condition groups with a per-request memo -/
 
 section
@@ -250,15 +248,7 @@ def DateTime.matchReq (I : MOps) (s : LState I (List DCond)) (q : Req) : List Ro
 def DateTime.trace (I : MOps) (s : LState I (List DCond)) (q : Req) : List Trace :=
   traceGroups I (fun c => DCond.eval c q) q "date_time_group" s.map [] (I.trace s.any q)
 
-def dateTimeOps (I : MOps) : MOps where
-  M := LState I (List DCond)
-  empty := lEmpty I
-  insert := lInsert I DateTime.keysOf
-  remove := lRemove I
-  batchRemove := lBatchRemove I
-  matchReq := DateTime.matchReq I
-  trace := DateTime.trace I
-  len := fun s => s.count
+def dateTimeOps (I : MOps) : MOps := outerOps I DateTime.keysOf (DateTime.matchReq I) (DateTime.trace I)
 
 /-! ### HeaderMatcher -/
 
@@ -299,15 +289,7 @@ def Header.matchReq (I : MOps) (s : LState I (List HCond)) (q : Req) : List Rout
 def Header.trace (I : MOps) (s : LState I (List HCond)) (q : Req) : List Trace :=
   traceGroups I (fun c => HCond.eval E c q) q "header_group" s.map [] (I.trace s.any q)
 
-def headerOps (I : MOps) : MOps where
-  M := LState I (List HCond)
-  empty := lEmpty I
-  insert := lInsert I (Header.keysOf E)
-  remove := lRemove I
-  batchRemove := lBatchRemove I
-  matchReq := Header.matchReq E I
-  trace := Header.trace E I
-  len := fun s => s.count
+def headerOps (I : MOps) : MOps := outerOps I (Header.keysOf E) (Header.matchReq E I) (Header.trace E I)
 
 end
 
@@ -365,15 +347,7 @@ def Method.trace (I : MOps) (s : LState I MKey) (q : Req) : List Trace :=
   let found := s.map.any (fun e => Method.accepts e.1 q)
   traces ++ excl ++ only ++ (if !found then [Trace.mk true false 0 (.other "method") []] else [])
 
-def methodOps (I : MOps) : MOps where
-  M := LState I MKey
-  empty := lEmpty I
-  insert := lInsert I Method.keysOf
-  remove := lRemove I
-  batchRemove := lBatchRemove I
-  matchReq := Method.matchReq I
-  trace := Method.trace I
-  len := fun s => s.count
+def methodOps (I : MOps) : MOps := outerOps I Method.keysOf (Method.matchReq I) (Method.trace I)
 
 /-! ## IpMatcher -/
 
@@ -406,15 +380,7 @@ def Ip.trace (I : MOps) (s : LState I RouteIp) (q : Req) : List Trace :=
       if e.1.matchIp a then Trace.mk true true (I.len e.2) (.other "ip") (I.trace e.2 q)
       else Trace.mk false true (I.len e.2) (.other "ip") [])
 
-def ipOps (I : MOps) : MOps where
-  M := LState I RouteIp
-  empty := lEmpty I
-  insert := lInsert I Ip.keysOf
-  remove := lRemove I
-  batchRemove := lBatchRemove I
-  matchReq := Ip.matchReq I
-  trace := Ip.trace I
-  len := fun s => s.count
+def ipOps (I : MOps) : MOps := outerOps I Ip.keysOf (Ip.matchReq I) (Ip.trace I)
 
 /-! ## HostMatcher -/
 
@@ -486,15 +452,7 @@ def Host.trace (I : MOps) (s : LState I HKey) (q : Req) : List Trace :=
       then traces ++ [Trace.mk true false 0 (.other "host_static") []] else traces
   if E.alwaysAnyHost || (routesOfList traces).isEmpty then traces ++ I.trace s.any q else traces
 
-def hostOps (I : MOps) : MOps where
-  M := LState I HKey
-  empty := lEmpty I
-  insert := lInsert I Host.keysOf
-  remove := lRemove I
-  batchRemove := lBatchRemove I
-  matchReq := Host.matchReq E I
-  trace := Host.trace E I
-  len := fun s => s.count
+def hostOps (I : MOps) : MOps := outerOps I Host.keysOf (Host.matchReq E I) (Host.trace E I)
 
 end
 
@@ -529,15 +487,7 @@ def Scheme.trace (I : MOps) (s : LState I String) (q : Req) : List Trace :=
   if rs != "" && (alookup rs s.map).isNone
   then traces ++ [Trace.mk true false 0 (.other "scheme") []] else traces
 
-def schemeOps (I : MOps) : MOps where
-  M := LState I String
-  empty := lEmpty I
-  insert := lInsert I Scheme.keysOf
-  remove := lRemove I
-  batchRemove := lBatchRemove I
-  matchReq := Scheme.matchReq I
-  trace := Scheme.trace I
-  len := fun s => s.count
+def schemeOps (I : MOps) : MOps := outerOps I Scheme.keysOf (Scheme.matchReq I) (Scheme.trace I)
 
 /-! ## Router -/
 
